@@ -170,6 +170,22 @@ class GraphCheck:
                     shards.append({"kind": "gen", "cls": cls, "seed": seed, "start": 600000 + start,
                                    "count": c, "payload": payload, "pre": True})
                     start += c
+        # fail / mend / retry histories: restructure() is refused because of a
+        # stray block without predecessors (dead code), the caller removes it
+        # and restructures the same object again
+        if getattr(self, "premature_histories", True) and self.stages == "JLB" \
+                and "budget" not in self.profile:
+            for cls, q, t, payload in self.classes:
+                if cls in ("cons_large", "cons", "names_long", "names_shuffled"):
+                    continue
+                total = max(1, int((q if quick else t) * self.scale * 0.1))
+                per = 100 if quick else 1000
+                start = 0
+                while start < total:
+                    c = min(per, total - start)
+                    shards.append({"kind": "gen", "cls": cls, "seed": seed, "start": 650000 + start,
+                                   "count": c, "payload": payload, "stray": True})
+                    start += c
         if self.with_real:
             nsh = 16
             for s in range(nsh):
@@ -190,6 +206,8 @@ class GraphCheck:
         for case in self._cases(spec):
             if nf:
                 case["faults"] = nf
+            if spec.get("stray") and "g" in case:
+                case["stray"] = True
             if spec.get("pre") and "g" in case:
                 case["pre"] = ["B", "L", "LB", "BL", "BB", "BLB"][
                     int(core.graph_hash(case["g"])[12:16], 16) % 6]
@@ -302,6 +320,9 @@ class GraphCheck:
         if case.get("pre"):
             if not self.premature_calls(case, scfg, ctx, acc):
                 return ctx
+        if case.get("stray"):
+            if not self.fail_mend(case, scfg, ctx, acc):
+                return ctx
         if "budget" in self.profile:
             done = self.run_budgeted(case, scfg, ctx, acc)
         else:
@@ -391,6 +412,42 @@ class GraphCheck:
             acc.counters["premature.changed_the_graph_case_dropped"] += 1
             return False
         acc.counters["premature.left_graph_unchanged_case_continues"] += 1
+        return True
+
+    def fail_mend(self, case, scfg, ctx, acc):
+        """History prefix: a block without predecessors is added (public
+        add_block), restructure() is refused by the branch stage (two heads),
+        the block is removed again.  The reference model is the graph without
+        the stray block; the oracles watch what follows.  -> False when the
+        library did something else with the stray block (case dropped)."""
+        from numba_scfg.core.datastructures.basic_block import BasicBlock
+
+        tr = attach.track_of(scfg)  # reference model: the closed CFG itself
+        if tr.domain_problem is not None:
+            return False
+        g = case["g"]
+        exits = [k for k, v in g.items() if not v]
+        tgt = () if int(core.graph_hash(g)[2:4], 16) % 2 or not exits else (exits[0],)
+        saved = set(attach.ACTIVE)
+        attach.ACTIVE.clear()
+        failed_in = None
+        try:
+            scfg.add_block(BasicBlock(name="stray_block", _jump_targets=tgt))
+            try:
+                scfg.restructure()
+            except RecursionError:
+                failed_in = "recursion"
+            except Exception as e:
+                failed_in = attach.exc_key(e)["site"]
+        finally:
+            attach.ACTIVE.update(saved)
+        stages = "".join(tr.stages)
+        if failed_in is None or stages != "JL" or "stray_block" not in scfg.graph:
+            acc.counters["failmend.other_outcome_case_dropped"] += 1
+            return False
+        scfg.remove_blocks({"stray_block"})
+        tr.failed = False
+        acc.counters["failmend.refused_mended_retried"] += 1
         return True
 
     def run_budgeted(self, case, scfg, ctx, acc):
